@@ -192,9 +192,14 @@ pub fn build(p: &Params) -> Table {
                         1 => h % (4 * n as u64 + 4),
                         2 => h & 0xFFFF_FFFF,
                         3 => r as u64 * 3 + 1,
-                        _ => (n - r) as u64 * 2,
+                        4 => (n - r) as u64 * 2,
+                        // small magnitudes of both signs (as 32-bit patterns): …, -2, -1, 0, 1, 2, …
+                        5 => (((r as i64 + 1) / 2) * if r % 2 == 0 { 1 } else { -1 }) as i32 as u32 as u64,
+                        // both signs, unsorted, with duplicates
+                        _ => ((h % (n as u64 + 2)) as i64 - (n as i64 / 2)) as i32 as u32 as u64,
                     };
-                    if p.key_i32 { (k & 0x7FFF_FFFF) as i64 } else { k as i64 }
+                    // an Int32 key column stores the same 32-bit pattern, read as signed (may be negative)
+                    if p.key_i32 { (k as u32) as i32 as i64 } else { (k & 0xFFFF_FFFF) as i64 }
                 } else {
                     atom_value(f.ty, h, pool.len(), p.str_skew, r)
                 };
@@ -210,7 +215,7 @@ pub fn build(p: &Params) -> Table {
         pool,
         rows,
         layout: Layout {
-            mode: p.layout.0 % 3,
+            mode: p.layout.0 % 4,
             junk: p.layout.1,
             empty_block: p.layout.2,
         },
@@ -267,14 +272,14 @@ pub fn params(rows: BoxedStrategy<usize>, max_rows: usize, allow_i32_key: bool) 
             prop_oneof![3 => Just(0u8), 1 => Just(1u8), 1 => Just(2u8)],
             proptest::option::weighted(0.7, any::<u16>()),
             if allow_i32_key { (0u8..4).boxed() } else { Just(1u8).boxed() },
-            0u8..5,
+            0u8..7,
         ),
         (
             rows,
             any::<u64>(),
             proptest::collection::vec(pool_item(), 1..=10),
             0u8..3,
-            (0u8..3, proptest::bool::weighted(0.25), any::<bool>()),
+            (0u8..4, proptest::bool::weighted(0.25), any::<bool>()),
             any::<bool>(),
             // 40 % of the tables have no array at all (the region where the rewritten file is
             // re-parsed strictly, without any header fix-up)
